@@ -489,6 +489,11 @@ func fromCtyObject(val cty.Value, target reflect.Value, path cty.Path) error {
 			ev := val.GetAttr(k)
 
 			targetField := target.Field(fieldIdx)
+			if !targetField.CanSet() {
+				// An unexported field cannot be populated, even when it
+				// carries a cty tag.
+				return likelyRequiredTypesError(path[:len(path)-1], target)
+			}
 			err := fromCtyValue(ev, targetField, path)
 			if err != nil {
 				return err
